@@ -146,6 +146,91 @@ theorem collocate_sel_spec (dist : Pos → Pos → α) (hsym : ∀ a b, dist a b
           simp only [outPairs, hid]
           exact idPairs_nodup dist r mi fp fs kept hk h1 h2
 
+/-- `(i, j, iv, d)` is a collocation of the two input datasets: data points with ids `i`
+and `j`, both with valid position, at most `r` km apart, `|Δt| < mi`, both times inside the
+user's `[start, end]`; `iv = ⌊|Δt|⌋` s and `d` = their distance in km -/
+def Collocated (dist : Pos → Pos → α) (r : α) (mi : Int) (start stop : Option Int)
+    (p s : List (Line Pos)) (i j : Nat) (iv : Int) (d : α) : Prop :=
+  ∃ x ∈ flatten p, ∃ y ∈ flatten s, x.id = i ∧ y.id = j ∧ ∃ px py, x.pos = some px ∧ y.pos = some py ∧
+    near dist r px py ∧ closeT mi x.time y.time ∧
+    inUser start stop x.time ∧ inUser start stop y.time ∧
+    iv = ivOf x.time y.time ∧ d = distKm .minkowski dist px py
+
+theorem collocatedSel_iff (dist : Pos → Pos → α) (r : α) (mi : Int) (start stop : Option Int)
+    (p s : List (Line Pos)) (lo hi : Int) (hw : commonWindow p s mi start stop = some (lo, hi))
+    (i j : Nat) (iv : Int) (d : α) :
+    CollocatedSel dist r mi (flatten (selectLines p lo hi)) (flatten (selectLines s lo hi)) i j iv d ↔
+      Collocated dist r mi start stop p s i j iv d := by
+  constructor
+  · rintro ⟨x, hx, y, hy, h1, h2, px, py, h3, h4, h5, h6, h7, h8⟩
+    obtain ⟨hx1, hx2, hx3⟩ := (mem_flatten_select p lo hi x).mp hx
+    obtain ⟨hy1, hy2, hy3⟩ := (mem_flatten_select s lo hi y).mp hy
+    exact ⟨x, hx1, y, hy1, h1, h2, px, py, h3, h4, h5, h6,
+      window_sound p s mi start stop lo hi hw _ hx2 hx3,
+      window_sound p s mi start stop lo hi hw _ hy2 hy3, h7, h8⟩
+  · rintro ⟨x, hx, y, hy, h1, h2, px, py, h3, h4, h5, h6, u1, u2, h7, h8⟩
+    obtain ⟨⟨a1, a2⟩, ⟨b1, b2⟩⟩ := window_complete p s mi start stop lo hi hw x y hx hy h6 u1 u2
+    exact ⟨x, (mem_flatten_select p lo hi x).mpr ⟨hx, a1, a2⟩, y,
+      (mem_flatten_select s lo hi y).mpr ⟨hy, b1, b2⟩, h1, h2, px, py, h3, h4, h5, h6, h7, h8⟩
+
+theorem ids_nodup_select (d : List (Line Pos)) (lo hi : Int)
+    (h : ((flatten d).map (·.id)).Nodup) : ((flatten (selectLines d lo hi)).map (·.id)).Nodup := by
+  have hperm : (flatten (selectLines d lo hi)).Perm
+      (flatten (d.filter (fun l => inWindow lo hi l.time))) := by
+    unfold flatten selectLines
+    exact List.Perm.flatMap_right _ (List.mergeSort_perm _ _)
+  have hsub : (flatten (d.filter (fun l => inWindow lo hi l.time))).Sublist (flatten d) := by
+    unfold flatten
+    exact List.Sublist.flatMap List.filter_sublist _
+  exact (hperm.map _).nodup_iff.mpr (h.sublist (hsub.map _))
+
+/-- **collocate, end to end** -/
+theorem collocate_spec (dist : Pos → Pos → α) (hsym : ∀ a b, dist a b = dist b a)
+    (T : TreeFn Pos α) (hT : TreeOK dist T) (shuf : Nat → List Pos → List Nat)
+    (hshuf : ValidShuf shuf) (tn : Tuning) (st : SState Pos) (hinv : Inv st)
+    (p s : List (Line Pos)) (hp : p ≠ []) (hs : s ≠ []) (mi : Int) (r : α) (start stop : Option Int)
+    (hcut : ∀ lo hi, commonWindow p s mi start stop = some (lo, hi) →
+      CutOK tn (dropNan (flatten (selectLines p lo hi))) (dropNan (flatten (selectLines s lo hi)))) :
+    ∃ st' out, collocate T shuf tn st p s mi r start stop = (st', .ok out) ∧ Inv st' ∧
+      (∀ i j iv d, ((i, j), iv, d) ∈ outPairs out ↔ Collocated dist r mi start stop p s i j iv d) ∧
+      (out = none ↔ ∀ i j iv d, ¬ Collocated dist r mi start stop p s i j iv d) ∧
+      (((flatten p).map (·.id)).Nodup → ((flatten s).map (·.id)).Nodup →
+        ((outPairs out).map (·.1)).Nodup) := by
+  obtain ⟨lo, hi, hw⟩ := commonWindow_isSome p s mi start stop hp hs
+  by_cases hempty : ((selectLines p lo hi).isEmpty || (selectLines s lo hi).isEmpty) = true
+  · have hno : ∀ i j iv d, ¬ Collocated dist r mi start stop p s i j iv d := by
+      intro i j iv d hc
+      obtain ⟨x, hx, y, hy, _⟩ := (collocatedSel_iff dist r mi start stop p s lo hi hw i j iv d).mpr hc
+      obtain ⟨l, hl, _⟩ := (mem_flatten _ x).mp hx
+      obtain ⟨l', hl', _⟩ := (mem_flatten _ y).mp hy
+      rcases Bool.or_eq_true _ _ |>.mp hempty with h | h
+      · have : selectLines p lo hi = [] := by simpa using h
+        rw [this] at hl; simp at hl
+      · have : selectLines s lo hi = [] := by simpa using h
+        rw [this] at hl'; simp at hl'
+    refine ⟨st, none, ?_, hinv, fun i j iv d => by simp [outPairs, hno i j iv d],
+      ⟨fun _ => hno, fun _ => rfl⟩, fun _ _ => by simp [outPairs]⟩
+    unfold collocate prepare
+    simp only [hw, hempty, if_true]
+  · have hprep : prepare p s mi start stop =
+        .ok (some (flatten (selectLines p lo hi), flatten (selectLines s lo hi))) := by
+      unfold prepare
+      simp only [hw, hempty, Bool.false_eq_true, if_false]
+    obtain ⟨st', out, h1, h2, h3, h4, h5⟩ := collocate_sel_spec dist hsym T hT shuf hshuf tn st hinv
+      p s mi r start stop _ _ hprep (flatten_select_sorted p lo hi) (flatten_select_sorted s lo hi)
+      (hcut lo hi hw)
+    refine ⟨st', out, h1, h2, ?_, ?_, ?_⟩
+    · intro i j iv d
+      rw [h3, collocatedSel_iff dist r mi start stop p s lo hi hw]
+    · rw [h4]
+      constructor
+      · intro h i j iv d hc
+        exact h i j iv d ((collocatedSel_iff dist r mi start stop p s lo hi hw i j iv d).mpr hc)
+      · intro h i j iv d hc
+        exact h i j iv d ((collocatedSel_iff dist r mi start stop p s lo hi hw i j iv d).mp hc)
+    · intro n1 n2
+      exact h5 (ids_nodup_select p lo hi n1) (ids_nodup_select s lo hi n2)
+
 end Main
 
 end Colloc
